@@ -50,6 +50,8 @@ class CallsMixin:
             r = self.call_idiom(e, n, st, d)
             if r is not None:
                 return r
+        if n == "dict" and len(e.args) == 1 and isinstance(e.args[0], ast.ListComp) and len(e.keywords) == 1 and e.keywords[0].arg is None:
+            return self.dict_merge_idiom(e, st, d)
         if n == "filter" and len(e.args) == 2 and isinstance(e.args[0], ast.Lambda):
             return self.filter_list(e.args[0], e.args[1], st, d)
         if n == "map" and len(e.args) == 2 and isinstance(e.args[0], ast.Lambda):
@@ -556,6 +558,43 @@ class CallsMixin:
             s1.assume(z3.ForAll([i], z3.Implies(z3.And(0 <= i, i < n), z3.Exists([j], z3.And(0 <= j, j < nx, eq_ix)))))
             s1.assume(z3.ForAll([j], z3.Implies(z3.And(0 <= j, j < nx), z3.Exists([i], z3.And(0 <= i, i < n, eq_ix)))))
             out.append((s1, r))
+        return out
+
+    def dict_merge_idiom(self, e, st, d):
+        """dict([(key, value) for key, value in X.items() if c(key)], **Y): a fresh dict; keys of Y override:
+        dom = dom(Y) U {k in dom(X) | c(k)},  val(k) = Y[k] if k in Y else X[k]"""
+        comp = e.args[0]; g = comp.generators[0]
+        ok = (len(comp.generators) == 1 and isinstance(comp.elt, ast.Tuple) and len(comp.elt.elts) == 2 and isinstance(g.target, ast.Tuple) and len(g.target.elts) == 2
+              and all(isinstance(t, ast.Name) for t in g.target.elts) and all(isinstance(t, ast.Name) for t in comp.elt.elts)
+              and [t.id for t in comp.elt.elts] == [t.id for t in g.target.elts] and len(g.ifs) <= 1
+              and isinstance(g.iter, ast.Call) and isinstance(g.iter.func, ast.Attribute) and g.iter.func.attr == "items")
+        if not ok:
+            raise Unsupported(f"dict(...) idiom not recognised: {ast.unparse(e)[:80]}")
+        out = []
+        for s1, xit in self.ev(g.iter, st, d):
+            for s2, y in self.ev(e.keywords[0].value, s1, d):
+                s2 = s2.copy()
+                x = xit.py
+                if y.ty[0] == "dyn":
+                    y = V(("dict", ("str",), ("dyn",)), dyn_ref(y.term))
+                if x.ty[0] != "dict" or y.ty[0] != "dict" or sort_of(x.ty[1]) != sort_of(y.ty[1]):
+                    raise Unsupported("dict merge over incompatible dicts")
+                k = z3.Const(fresh_name("k_dm"), sort_of(x.ty[1]))
+                cond = z3.BoolVal(True)
+                if g.ifs:
+                    sb = s2.peek(); sb.env = dict(s2.env); sb.env[g.target.elts[0].id] = V(x.ty[1], k); sb.env[g.target.elts[1].id] = V(x.ty[2], z3.Select(s2.dict_val(x), k))
+                    rr = self.ev(g.ifs[0], sb, d)
+                    if len(rr) != 1:
+                        raise Unsupported("dict merge filter branches")
+                    cond = truth(rr[0][1], rr[0][0])
+                r = s2.new_dict(y.ty, "merged")
+                kd, kv, kn = s2.dict_keys(y.ty)
+                dd, dv = s2.dict_arrays(y.ty)
+                newdom = z3.FreshConst(z3.ArraySort(sort_of(y.ty[1]), z3.BoolSort()), "dm_dom"); newval = z3.FreshConst(z3.ArraySort(sort_of(y.ty[1]), sort_of(y.ty[2])), "dm_val")
+                s2.assume(z3.ForAll([k], z3.Select(newdom, k) == z3.Or(z3.Select(s2.dict_dom(y), k), z3.And(z3.Select(s2.dict_dom(x), k), cond))))
+                s2.assume(z3.ForAll([k], z3.Select(newval, k) == z3.If(z3.Select(s2.dict_dom(y), k), z3.Select(s2.dict_val(y), k), z3.Select(s2.dict_val(x), k))))
+                s2.heap[kd] = z3.Store(dd, r.term, newdom); s2.heap[kv] = z3.Store(dv, r.term, newval)
+                out.append((s2, r))
         return out
 
     def call_math(self, e, name, st, d):
